@@ -139,7 +139,11 @@ class SFTPHandle(ClosingContextManager):
         except IOError as e:
             self.__tell = None
             return SFTPServer.convert_errno(e.errno)
-        if self.__tell is not None:
+        if (self.__flags & os.O_APPEND) != 0:
+            # the data went to the end of the file, wherever the position
+            # remembered from an earlier read was: look it up again next time
+            self.__tell = None
+        elif self.__tell is not None:
             self.__tell += len(data)
         return SFTP_OK
 
